@@ -10,6 +10,8 @@ use std::sync::atomic::{AtomicUsize, Ordering};
 pub mod c01;
 pub mod c02;
 pub mod c03;
+pub mod c06;
+pub mod c07;
 pub mod c11;
 pub mod c12;
 pub mod c13;
@@ -27,6 +29,7 @@ pub mod report;
 pub mod rng;
 pub mod run;
 pub mod sinklog;
+pub mod treegen;
 
 use report::Report;
 use rng::Rng;
@@ -135,6 +138,25 @@ fn main() {
             let v = refcmd::clicases(&args[2], seed, n);
             println!("{}", serde_json::to_string(&v).unwrap());
         }
+        "c07-child" => {
+            let mut seed = 0u64;
+            let mut runs = 10usize;
+            let mut out = String::new();
+            let mut thorough = false;
+            let mut i = 2;
+            while i + 1 < args.len() {
+                match args[i].as_str() {
+                    "--seed" => seed = args[i + 1].parse().unwrap(),
+                    "--runs" => runs = args[i + 1].parse().unwrap(),
+                    "--out" => out = args[i + 1].clone(),
+                    "--tier" => thorough = args[i + 1] == "thorough",
+                    _ => usage(),
+                }
+                i += 2;
+            }
+            c07::child(seed, runs, &out, thorough);
+            run::cleanup_scratch();
+        }
         "ref" => {
             let mut text = String::new();
             std::io::Read::read_to_string(&mut std::io::stdin(), &mut text)
@@ -160,6 +182,8 @@ fn main() {
                 "c13" => c13::replay(body),
                 "c12" => c12::replay(body),
                 "c11" => c11::replay(body),
+                "c06" => c06::replay(body),
+                "c07" => c07::replay(body),
                 "c14" => c14::replay(body),
                 "c17" => c17::replay(body),
                 p => {
@@ -212,6 +236,8 @@ fn main() {
                 "c13" => c13::run(&ctx),
                 "c12" => c12::run(&ctx),
                 "c11" => c11::run(&ctx),
+                "c06" => c06::run(&ctx),
+                "c07" => c07::run(&ctx),
                 "c14" => c14::run(&ctx),
                 "c17" => c17::run(&ctx),
                 _ => usage(),
